@@ -98,25 +98,44 @@ Theorem C11_fp_frame_set : forall pkts1 pkts2,
 Proof. exact frame_set_ext. Qed.
 Print Assumptions C11_fp_frame_set.
 
-(** The proviso fails for a QUICRandomFrames builder whose PING range allows zero and a
-    positive count (MinPING = 0 < MaxPING - 1: the Chrome_115 parrots): two draws give
-    different inputs to the hash, whatever the rest of the flight is.  (Stated for every
-    range, so it keeps holding when the parrot is repaired; whether the built-in parrots are
-    affected is decided on the implementation by the monitor simfingerprint/.../id-unstable.) *)
-Theorem C11_fp_invariant_refuted : forall mn mx n,
-  draw_ok mn mx 0 = true -> draw_ok mn mx (Z.of_nat (S n)) = true ->
-  forall k nC nPad ch w,
-    fp_features (built k 0 nC nPad) ch w <> fp_features (built k (S n) nC nPad) ch w.
-Proof. exact fp_not_invariant. Qed.
-Print Assumptions C11_fp_invariant_refuted.
+(** The proviso holds for every built-in parrot: for each randomised frame builder of each
+    built-in QUICID (table [uspec_parrot_ping_ranges], generated from QUICID2Spec on every
+    run) the PING count cannot be zero on one dial and positive on another, so the hashed
+    frame-type set is the same for all draws.  (Before the repair "Chrome_115 parrots:
+    MinPING 0 -> 1" this theorem was C11_fp_invariant_refuted; an edit that re-introduces a
+    range mixing 0 with a positive count makes [parrots_ping_ranges_ok] fail to check.) *)
+Theorem C11_parrots_ping_stable : forall r, In r uspec_parrot_ping_ranges ->
+  forall n1 n2, draw_ok (fst r) (snd r) (Z.of_nat n1) = true -> draw_ok (fst r) (snd r) (Z.of_nat n2) = true ->
+  forall k nC nPad, nC <> O ->
+    frame_set (built k n1 nC nPad) = frame_set (built k n2 nC nPad).
+Proof. exact parrots_ping_stable. Qed.
+Print Assumptions C11_parrots_ping_stable.
 
-(** A range that excludes zero PINGs (MinPING >= 1: the Chrome_146 parrots) keeps the set. *)
+(** The general facts behind it.  A range that cannot mix zero with a positive count
+    ([ping_range_ok]: zero is not drawable, or nothing but zero is) keeps the set ... *)
+Theorem C11_fp_ping_range_stable : forall mn mx n1 n2,
+  ping_range_ok mn mx = true ->
+  draw_ok mn mx (Z.of_nat n1) = true -> draw_ok mn mx (Z.of_nat n2) = true ->
+  forall k nC nPad, nC <> O ->
+    frame_set (built k n1 nC nPad) = frame_set (built k n2 nC nPad).
+Proof. exact ping_range_stable. Qed.
+Print Assumptions C11_fp_ping_range_stable.
+
 Theorem C11_fp_ping_stable : forall mn mx n1 n2,
   1 <= mn -> draw_ok mn mx (Z.of_nat n1) = true -> draw_ok mn mx (Z.of_nat n2) = true ->
   forall k nC nPad, nC <> O ->
     frame_set (built k n1 nC nPad) = frame_set (built k n2 nC nPad).
 Proof. exact fp_ping_stable. Qed.
 Print Assumptions C11_fp_ping_stable.
+
+(** ... and every other range (of non-negative bounds) allows 0 and 1 PINGs, which give
+    different inputs to the hash whatever the rest of the flight is: the criterion is exact. *)
+Theorem C11_fp_ping_mix_differs : forall mn mx, 0 <= mn -> ping_range_ok mn mx = false ->
+  draw_ok mn mx 0 = true /\ draw_ok mn mx (Z.of_nat 1) = true /\
+  forall k nC nPad ch w,
+    fp_features (built k 0 nC nPad) ch w <> fp_features (built k 1 nC nPad) ch w.
+Proof. exact ping_mix_differs. Qed.
+Print Assumptions C11_fp_ping_mix_differs.
 
 (** Non-vacuity. *)
 Example C11_ex_suppress :
@@ -144,9 +163,17 @@ Proof.
 Qed.
 Print Assumptions C11_ex_dial.
 
-Example C11_ex_refuted : (* the Chrome_115 range MinPING = 0, MaxPING = 10 allows 0 and 1 PINGs *)
+(* regression: the range the Chrome_115 parrots had before the repair (MinPING = 0,
+   MaxPING = 10) is rejected by the criterion; it allows 0 and 1 PINGs with different sets *)
+Example C11_ex_old_range_rejected :
+  ping_range_ok 0 10 = false /\ ping_range_ok 1 10 = true /\
   draw_ok 0 10 0 = true /\ draw_ok 0 10 (Z.of_nat 1) = true /\
   frame_set (built (Pkt [0; 0; 0; 1] 8 0 [1] false []) 0 3 4) = [0; 6] /\
   frame_set (built (Pkt [0; 0; 0; 1] 8 0 [1] false []) 1 3 4) = [0; 1; 6].
 Proof. repeat split; reflexivity. Qed.
-Print Assumptions C11_ex_refuted.
+Print Assumptions C11_ex_old_range_rejected.
+
+Example C11_ex_parrot_table : (* the table is not empty and holds the repaired Chrome_115 range *)
+  In (1, 10) uspec_parrot_ping_ranges /\ draw_ok 1 10 (Z.of_nat 1) = true /\ draw_ok 1 10 (Z.of_nat 9) = true.
+Proof. repeat split; cbn; auto. Qed.
+Print Assumptions C11_ex_parrot_table.
